@@ -56,10 +56,9 @@ def merge_worker_outputs(part: Part, outs: Iterable[dict], max_keep: int = 200) 
         part.counters.update(o.get("counters", {}))
         part.known.update(o.get("known", {}))
         for v in o.get("violations", []):
-            if len(part.violations) < max_keep:
-                part.violations.append(v)
-            else:
-                part.counters["violations_not_kept"] += 1
+            part.violations.append(v)
+        if len(part.violations) > 4 * max_keep:
+            part.violations = trim(part.violations, 12)
         for d in o.get("drift", []):
             if len(part.drift) < 20:
                 part.drift.append(d)
@@ -68,6 +67,20 @@ def merge_worker_outputs(part: Part, outs: Iterable[dict], max_keep: int = 200) 
                 part.samples.append(s)
         if "error" in o:
             raise MachineryError(o["error"])
+    part.violations = trim(part.violations, 12)
+
+
+def trim(violations: list, per_class: int = 8) -> list:
+    """Keep at most `per_class` violation records per (properties, kind of failure), so that a frequent
+    failure of one property cannot crowd out a rare failure of another."""
+    seen: Counter = Counter()
+    out = []
+    for v in violations:
+        key = (tuple(v.get("properties", (v.get("property"),))), str(v.get("what"))[:60])
+        seen[key] += 1
+        if seen[key] <= per_class:
+            out.append(v)
+    return out
 
 
 def _run_chunk(args):
